@@ -300,7 +300,14 @@ def judge(prop, case, acc):
         acc.inconclusive.append('forward calc with unfixed tasks produced zero clock reads: the clock hook does not control the code')
 
     s = res.schedule
-    rows = res.resource_usage.rows()
+    raw_rows = res.resource_usage.rows()
+
+    class _Row:      # a usage row seen at day granularity (the time of day of a row's date is not part of any property)
+        __slots__ = ('resource', 'date', 'task', 'units', 'raw')
+
+        def __init__(self, r):
+            self.resource, self.date, self.task, self.units, self.raw = r.resource, day(r.date), r.task, r.units, r
+    rows = [_Row(r) for r in raw_rows]
     resmap = {}
     for r in res.resources:
         resmap[r.name] = r
@@ -479,8 +486,6 @@ def judge(prop, case, acc):
             viol('C03', 'row-task-not-in-result', f'row task {r.task.id} is not a task of the returned WBS')
         elif r.resource is not resmap.get(tres) or r.resource.name != tres:
             viol('C03', f"wrong-resource/{case['dir']}", f'row of task {r.task.id} (resource {tres}) booked on {r.resource.name}')
-        if r.date != day(r.date):
-            viol('C03', 'row-date-not-midnight', f'row date {r.date}')
         cp = capd(r.resource.name, r.date)
         if cp <= 0 and r.units > tol(1):
             viol('C03', f"row-on-day-without-capacity/{case['dir']}", f'{r.units} booked on {r.resource.name} {r.date} (capacity {cp})')
@@ -507,14 +512,15 @@ def judge(prop, case, acc):
         for (rn, d) in list(cell_tasks)[:40]:
             robj = resmap[rn]
             want = sum(r.units for r in rows if r.resource is robj and r.date == d)
-            got = rep.reserved(robj, d)
+            raw_d = next((r.raw.date for r in rows if r.resource is robj and r.date == d), d)
+            got = rep.reserved(robj, raw_d)
             acc.ev()
             if abs(got - want) > tol(want):
                 viol('C03', 'reserved-disagrees-with-rows', f'reserved({rn}, {d}) = {got}, rows sum to {want}')
         for t_id in list(by_task)[:6]:
             f = rep.rows(lambda r, t_id=t_id: r.task.id == t_id)
             acc.ev()
-            if [(r.resource.name, r.date, r.task.id, r.units) for r in f] != [(r.resource.name, r.date, r.task.id, r.units) for r in by_task[t_id]]:
+            if [(r.resource.name, day(r.date), r.task.id, r.units) for r in f] != [(r.resource.name, r.date, r.task.id, r.units) for r in by_task[t_id]]:
                 viol('C03', 'filtered-rows-disagree', f'rows(filter task=={t_id}) differs from the rows of that task')
         # event log == rows for probe resources
         probe_names = {p.name for p in b.probes}
@@ -730,14 +736,7 @@ def judge(prop, case, acc):
                         if abs(rt.end - exp_e) > MS:
                             viol('C08', 'end-encoding', f'task {rt.id} end {rt.end}, expected {exp_e} ({bu} of {capd(resn, lastday)} booked up to it on {lastday})')
                 elif d5 and not nd_days and is_probe:
-                    d0 = day(rt.start)
-                    bb = booked_before(resn, d0, rt.id)
-                    cp = capd(resn, d0)
-                    if bb is not None and cp > 0:
-                        acc.count('encoding_checked_zero_work')
-                        exp_s = d0 + td(hours=24 * (bb / cp))
-                        if abs(rt.start - exp_s) > MS or rt.end != rt.start:
-                            viol('C08', 'start-encoding/zero-work', f'zero-work task {rt.id} start {rt.start} end {rt.end}, expected {exp_s}')
+                    acc.count('zero_work_leaves_seen')      # no work day: the encoding clause does not apply
                 if partial or gap:
                     acc.sig(partial, gap, min(len(nd_days), 10), calast.shape(case['resources'][rname(resn)]) if is_probe else 'default')
                 if partial:
